@@ -259,6 +259,13 @@ func visitInstr(fr *frame, instr ssa.Instruction) continuation {
 		m.chanSend(fr, fr.get(instr.Chan), fr.get(instr.X))
 
 	case *ssa.Store:
+		if g, ok := instr.Addr.(*ssa.Global); ok {
+			if why, bad := m.poison[g]; bad {
+				// a harness (or the program) assigns the global explicitly: from here on it is defined
+				delete(m.poison, g)
+				m.logUndo(func() { m.poison[g] = why })
+			}
+		}
 		addr := fr.deref(fr.get(instr.Addr))
 		// "return x" of a named result x is built as the self-assignment
 		// t = *x; *x = t, which the compiler does not emit: not a write
